@@ -175,6 +175,98 @@ func c05Desc(evs []c05Ev, getMID int32) string {
 	return fmt.Sprintf("%d|%s", getMID, strings.Join(parts, " "))
 }
 
+// genC05History draws one structured history (shared with C12).
+func genC05History(rng *Rng, tier string) ([]c05Ev, int32) {
+	respOptsPool := []message.Options{
+		nil,
+		{{ID: message.ETag, Value: []byte{1, 2, 3}}},
+		{{ID: message.MaxAge, Value: []byte{60}}},
+		{{ID: message.ETag, Value: []byte{9}}, {ID: message.LocationPath, Value: []byte("a")}, {ID: message.LocationPath, Value: []byte("bc")}},
+		{{ID: message.ContentFormat, Value: []byte{50}}},
+	}
+	respCodes := []int{69, 68, 65, 132, 160, 95, 157}
+	mkReq := func(typ, mid int, getMID int32) c05Ev {
+		ev := c05Ev{Kind: "req", Typ: typ, MID: mid, Code: 1 + rng.Intn(4)}
+		tl := []int{0, 1, 2, 4, 8, 8}[rng.Intn(6)]
+		ev.Tok = make([]byte, tl)
+		for i := range ev.Tok {
+			ev.Tok[i] = byte(rng.U64())
+		}
+		if rng.Chance(20) {
+			v := []byte{byte([]int{0, 2, 8, 16, 26, 24, 10}[rng.Intn(7)])}
+			if v[0] == 0 {
+				v = nil
+			}
+			ev.ReqOpts = message.Options{{ID: message.NoResponse, Value: v}}
+		}
+		if rng.Chance(75) {
+			ev.Beh = "resp"
+			ev.RCode = respCodes[rng.Intn(len(respCodes))]
+			ev.ROpts = respOptsPool[rng.Intn(len(respOptsPool))]
+			ev.PLen = []int{0, 0, 1, 5, 13, 40}[rng.Intn(6)]
+			ev.PSalt = rng.Intn(250)
+		} else {
+			ev.Beh = "none"
+		}
+		return ev
+	}
+	getMID := int32([]int{0x1000, 0, 0x7fff, 0xffff, 0x8123}[rng.Intn(5)])
+	own := int(uint16(uint32(getMID) - 0x7fff))
+	midPool := []int{0, 1, 2, 65535, 4660, (own + 1) & 0xffff, (own + 2) & 0xffff, own, (own + 0x3fff) & 0xffff, (own + 0x4001) & 0xffff}
+	k := 3 + rng.Intn(8)
+	if tier == "thorough" && rng.Chance(20) {
+		k = 10 + rng.Intn(20)
+	}
+	var evs []c05Ev
+	now := 0
+	var stamps []int // times at which something may have been stored
+	usable := func(t int) bool {
+		for _, s := range stamps {
+			d := t - s - 247000
+			if d > -400 && d < 400 {
+				return false
+			}
+		}
+		return true
+	}
+	var last *c05Ev
+	for len(evs) < k {
+		switch r := rng.Intn(100); {
+		case r < 55:
+			var ev c05Ev
+			if last != nil && rng.Chance(45) {
+				// a duplicate of an earlier request (same datagram), sometimes with another handler behaviour
+				prev := evs[rng.Intn(len(evs))]
+				if prev.Kind != "req" {
+					prev = *last
+				}
+				ev = prev
+				if rng.Chance(30) {
+					alt := mkReq(prev.Typ, prev.MID, getMID)
+					ev.Beh, ev.RCode, ev.ROpts, ev.PLen, ev.PSalt = alt.Beh, alt.RCode, alt.ROpts, alt.PLen, alt.PSalt
+				}
+				if rng.Chance(10) {
+					ev.Typ = 1 - ev.Typ
+				}
+			} else {
+				ev = mkReq(rng.Intn(2), midPool[rng.Intn(len(midPool))], getMID)
+			}
+			evs = append(evs, ev)
+			last = &evs[len(evs)-1]
+			stamps = append(stamps, now)
+		case r < 85:
+			ms := []int{1000, 100000, 246000, 246600, 247500, 248000, 500, 123000, 124500, 300000}[rng.Intn(10)]
+			if usable(now + ms) {
+				now += ms
+				evs = append(evs, c05Ev{Kind: "age", Ms: ms})
+			}
+		default:
+			evs = append(evs, c05Ev{Kind: "tick"})
+		}
+	}
+	return evs, getMID
+}
+
 func runC05(a runArgs) error {
 	e := NewEmitter("C05", "Dedup.Run")
 	e.Preamble = "From GoCoap Require Import Base.Bytes Dedup.Model Dedup.Spec."
@@ -223,99 +315,13 @@ func runC05(a runArgs) error {
 		return e.Flush(a.out)
 	}
 
-	respOptsPool := []message.Options{
-		nil,
-		{{ID: message.ETag, Value: []byte{1, 2, 3}}},
-		{{ID: message.MaxAge, Value: []byte{60}}},
-		{{ID: message.ETag, Value: []byte{9}}, {ID: message.LocationPath, Value: []byte("a")}, {ID: message.LocationPath, Value: []byte("bc")}},
-		{{ID: message.ContentFormat, Value: []byte{50}}},
-	}
-	respCodes := []int{69, 68, 65, 132, 160, 95, 157}
-	mkReq := func(typ, mid int, getMID int32) c05Ev {
-		ev := c05Ev{Kind: "req", Typ: typ, MID: mid, Code: 1 + rng.Intn(4)}
-		tl := []int{0, 1, 2, 4, 8, 8}[rng.Intn(6)]
-		ev.Tok = make([]byte, tl)
-		for i := range ev.Tok {
-			ev.Tok[i] = byte(rng.U64())
-		}
-		if rng.Chance(20) {
-			v := []byte{byte([]int{0, 2, 8, 16, 26, 24, 10}[rng.Intn(7)])}
-			if v[0] == 0 {
-				v = nil
-			}
-			ev.ReqOpts = message.Options{{ID: message.NoResponse, Value: v}}
-		}
-		if rng.Chance(75) {
-			ev.Beh = "resp"
-			ev.RCode = respCodes[rng.Intn(len(respCodes))]
-			ev.ROpts = respOptsPool[rng.Intn(len(respOptsPool))]
-			ev.PLen = []int{0, 0, 1, 5, 13, 40}[rng.Intn(6)]
-			ev.PSalt = rng.Intn(250)
-		} else {
-			ev.Beh = "none"
-		}
-		return ev
-	}
 	// structured histories
 	n := 260
 	if a.tier == "thorough" {
 		n = 3000
 	}
 	for c := 0; c < n; c++ {
-		getMID := int32([]int{0x1000, 0, 0x7fff, 0xffff, 0x8123}[rng.Intn(5)])
-		own := int(uint16(uint32(getMID) - 0x7fff))
-		midPool := []int{0, 1, 2, 65535, 4660, (own + 1) & 0xffff, (own + 2) & 0xffff, own, (own + 0x3fff) & 0xffff, (own + 0x4001) & 0xffff}
-		k := 3 + rng.Intn(8)
-		if a.tier == "thorough" && rng.Chance(20) {
-			k = 10 + rng.Intn(20)
-		}
-		var evs []c05Ev
-		now := 0
-		var stamps []int // times at which something may have been stored
-		usable := func(t int) bool {
-			for _, s := range stamps {
-				d := t - s - 247000
-				if d > -400 && d < 400 {
-					return false
-				}
-			}
-			return true
-		}
-		var last *c05Ev
-		for len(evs) < k {
-			switch r := rng.Intn(100); {
-			case r < 55:
-				var ev c05Ev
-				if last != nil && rng.Chance(45) {
-					// a duplicate of an earlier request (same datagram), sometimes with another handler behaviour
-					prev := evs[rng.Intn(len(evs))]
-					if prev.Kind != "req" {
-						prev = *last
-					}
-					ev = prev
-					if rng.Chance(30) {
-						alt := mkReq(prev.Typ, prev.MID, getMID)
-						ev.Beh, ev.RCode, ev.ROpts, ev.PLen, ev.PSalt = alt.Beh, alt.RCode, alt.ROpts, alt.PLen, alt.PSalt
-					}
-					if rng.Chance(10) {
-						ev.Typ = 1 - ev.Typ
-					}
-				} else {
-					ev = mkReq(rng.Intn(2), midPool[rng.Intn(len(midPool))], getMID)
-				}
-				evs = append(evs, ev)
-				last = &evs[len(evs)-1]
-				stamps = append(stamps, now)
-			case r < 85:
-				ms := []int{1000, 100000, 246000, 246600, 247500, 248000, 500, 123000, 124500, 300000}[rng.Intn(10)]
-				if usable(now + ms) {
-					now += ms
-					evs = append(evs, c05Ev{Kind: "age", Ms: ms})
-				}
-			default:
-				evs = append(evs, c05Ev{Kind: "tick"})
-			}
-		}
+		evs, getMID := genC05History(rng, a.tier)
 		emit(evs, getMID)
 	}
 	// canonical witnesses, always present
